@@ -56,7 +56,7 @@ func (i IntSchema) Units() *UnitsDefinition {
 func (i IntSchema) Unserialize(data any) (any, error) {
 	unserialized, err := intInputMapper(data, i.UnitsValue)
 	if err != nil {
-		return 0, err
+		return 0, asConstraintError(err)
 	}
 	return unserialized, i.Validate(unserialized)
 }
